@@ -71,6 +71,11 @@ Example C20_markers_example :
   tmarks (TTuple [TSet [TNamed (K"int") (K"builtins.int"); TNamed (K"str") (K"builtins.str")]; TUnknown]) =
   [K"no tuple support"; K"no set support"; K"Set"; K"unknown"].
 Proof. vm_compute. reflexivity. Qed.
+(* the set of keys the model can raise is the set of keys raised in the source (a table regenerated on every run) *)
+Theorem C20_model_raises_exactly_the_source_keys :
+  forallb (fun k => mem_str k raisable_keys) source_raised_keys &&
+  forallb (fun k => mem_str k source_raised_keys) raisable_keys = true.
+Proof. exact model_raises_source_keys. Qed.
 Print Assumptions C20_flush_clears.
 Print Assumptions C20_nothing_pending_nothing_printed.
 Print Assumptions C20_function_flushes.
@@ -83,3 +88,4 @@ Print Assumptions C20_function_markers.
 Print Assumptions C20_property_markers.
 Print Assumptions C20_attribute_markers.
 Print Assumptions C20_markers_example.
+Print Assumptions C20_model_raises_exactly_the_source_keys.
